@@ -33,6 +33,10 @@ def c_tkey(k):
         return f"(TBase {grammars.c_base(k[1])})"
     if k[0] == "u":
         return "(TUnion " + clist(c_tkey(x) for x in k[1]) + ")"
+    if k[0] == "l":
+        return f"(TList {c_tkey(k[1])})"
+    if k[0] == "t":
+        return "(TTuple " + clist(c_tkey(x) for x in k[1]) + ")"
     return "(TTuple [])"     # a key the model has no name for (never equal to a modelled key)
 
 
@@ -232,6 +236,14 @@ def gen_cases(r, tier, n_random=8):
                     ops += [["map", c1], ["draw", 0, 1000], ["map", c1], ["map", c2], ["map", c2]]
                     pool += [c1, c2]
                 cases.append({"op": "rep", "decl": d, "rep": rep, "seed": r.randrange(10**6), "ops": ops})
+    # the genotype a representation object maps FIRST is mapped again later (decider state must not carry over between mappings);
+    # concrete start symbol, so that the first production choice is not made at the root
+    for rep in ({"kind": "ge", "decider": ["pi", 4], "gene_length": 8}, {"kind": "sge", "decider": ["pi", 4], "gene_length": 4},
+                {"kind": "ge", "decider": ["full", 3], "gene_length": 8}, {"kind": "dsge", "max_depth": 4}):
+        for d in (fam[3], H([A(), P(0, INT), P(0, S(0), S(0)), P(0, S(1), S(2), S(0))], start=3)):
+            for _ in range(2 if not big else 4):
+                cases.append({"op": "rep", "decl": d, "rep": rep, "seed": r.randrange(10**6),
+                              "ops": [["create"], ["create"], ["map", 0], ["map", 1], ["map", 0], ["draw", 0, 1000], ["map", 1], ["map", 0]]})
     for _ in range(n_random if not big else 5 * n_random):
         d = grammars.gen_decl(r, {"weights": False, "tuples": True, "dependent": False})
         for rep in r.sample(rep_specs(r), 2):
@@ -276,6 +288,23 @@ def gen_variation_cases(r, tier):
     breed = H([A(), P(0, INT), P(0, S(0), S(0)), P(0, INT, S(2), INT)], start=2)
     for dec in (["max", 4], ["pi", 5]):
         cases.append({"op": "rep", "decl": breed, "rep": {"kind": "tree", "decider": dec}, "seed": r.randrange(10**6), "ops": breeding_ops(6 if not big else 12)})
+    # lineages under dynamic SGE on hierarchies with plain base-type fields: its own mutation writes codons far above the range
+    # fresh genotypes use, and every offspring is mapped
+    FLOAT = ["base", "float"]
+    for d in (H([A(), P(0, FLOAT), P(0, INT, S(0)), P(0, S(0), BOOL, FLOAT)]), variation_family()[3]):
+        for D in (3, 5):
+            for _ in range(2 if not big else 5):
+                ops = [["create"], ["map", 0]]
+                for i in range(10):
+                    ops += [["mutate", i], ["map", i + 1]]
+                cases.append({"op": "rep", "decl": d, "rep": {"kind": "dsge", "max_depth": D}, "seed": r.randrange(10**6), "ops": ops})
+    # a Union whose list alternative is deeper than its other alternative, at every limit from the minimum upwards
+    deep_union = H([A(), P(0, INT), P(None, S(1), S(1)), P(0, ["union", [["list", S(2)], S(1)]])])
+    for D in (2, 3, 4):
+        for rep in ({"kind": "dsge", "max_depth": D}, {"kind": "ge", "decider": ["max", D], "gene_length": 12}, {"kind": "sge", "decider": ["pi", D], "gene_length": 4},
+                    {"kind": "tree", "decider": ["full", D]}):
+            for _ in range(2 if not big else 5):
+                cases.append({"op": "rep", "decl": deep_union, "rep": rep, "seed": r.randrange(10**6), "ops": gen_ops(r, 8)})
     return cases
 
 
